@@ -167,6 +167,12 @@ func (s *Store) Save(key uint, value net.Buffers) error {
 			fail = true
 		}
 	}
+	if !fail && s.AliasLoad {
+		if s.pristine == nil {
+			s.pristine = map[uint][]byte{}
+		}
+		s.pristine[key] = append([]byte{}, flat...)
+	}
 	if !fail {
 		if s.w.TakeSnaps {
 			n := make(map[uint][]byte, len(s.cur)+1)
@@ -200,6 +206,7 @@ func (s *Store) Delete(key uint) error {
 		}
 	}
 	if !fail {
+		delete(s.pristine, key)
 		if _, ok := s.cur[key]; ok {
 			if s.w.TakeSnaps {
 				n := make(map[uint][]byte, len(s.cur))
